@@ -363,11 +363,7 @@ async def run_history(loop, case, out, stats, trace):
                 if m.place != "gone":
                     content_check(rig, m, kind, ctx, out, stats)
             if kind == "redis" and rig.server.double_takes:
-                lab, name, _t = rig.server.double_takes[0]
-                out[:] = [v for v in out if v["rule"] == "stuck_held"]
-                out.append(V("duplicated", kind, "concurrent-consumers", f"{lab} took {name} although its LREM/ZREM removed nothing (a rival consumer had taken it between the read and the transaction); it marks the message in-flight and hands out a second copy"))
-                stats["redis_double_takes"] += 1
-                break
+                stats["redis_lost_take_races"] = len(rig.server.double_takes)  # harmless since the loser gives up (fix 1st)
             if any(v["rule"] != "stuck_held" for v in out):
                 break
             n_before = len(out)
@@ -403,12 +399,7 @@ async def run_history(loop, case, out, stats, trace):
                     m.place = "dead" if m.taken_from == "DEAD" else "queued"
                     m.holder = None
             await settle(loop, rig, 0.05)
-            if kind == "redis" and rig.server.double_takes:
-                lab, name, _t = rig.server.double_takes[0]
-                out.append(V("duplicated", kind, "concurrent-consumers", f"{lab} took {name} although its LREM/ZREM removed nothing (rival consumer); second copy handed out"))
-                stats["redis_double_takes"] += 1
-            else:
-                compare(model, rig.snapshot(), consumers, now(), kind, "final-release", out, stats, multi_seen, local_before)
+            compare(model, rig.snapshot(), consumers, now(), kind, "final-release", out, stats, multi_seen, local_before)
         if all(v["rule"] == "stuck_held" for v in out):
             n = now()
             got = collections.defaultdict(list)
